@@ -212,7 +212,8 @@ def run(ctx):
             if slot in ('byte-order-from-first-byte',
                         'body-decoded-under-signature',
                         'header-from-offset-0',
-                        'unknown-code-skips-one-field'):
+                        'unknown-code-skips-one-field',
+                        'field-loop-visits-every-field'):
                 ctx.ob('C04.D1', where, 'content:' + slot, ok,
                        '[each delivered message is decoded in its own byte '
                        'order] ' + msg, detail, nontrivial, loc)
